@@ -106,7 +106,7 @@ def gen(prop, stream, tier, avoid):
             op["how"] = rng.pick(["spacing_zero", "spacing_zero", "spacing_negative", "container_spacing_zero"])
             op["after_reset"] = rng.chance(0.7)
         elif k == "csample":
-            op["n"] = rng.randint(3, min(max_n, 12))
+            op["n"] = rng.randint(2, min(max_n, 12))
         elif k == "ctessellator":
             op["cls"] = rng.pick(["tri", "trim"])
             op["used"] = rng.chance(0.6)      # the object handed over has already tessellated another surface
